@@ -36,6 +36,10 @@ def make_world():
         ns = {'_verif_user': True, '__slots__': ()}
         if k == 2:
             ns['__len__'] = lambda self: 0          # a container-like component that is falsy (identity equality kept)
+        if k == 1:
+            import abc
+            w.CT.append(abc.ABCMeta('CT1', (Component, abc.ABC), ns))     # a component class whose metaclass is not `type`
+            continue
         if k == 4:
             from ECAgent.Environments import PositionComponent
             w.CT.append(type('CT4', (PositionComponent,), {'_verif_user': True}))
@@ -638,6 +642,10 @@ def spatial_histories(prop):
             for t in [(0, 0, 0), (W, H, D), (W - 1, H - 1, D - 1), (0, 41, 0), (-1, 0, 0), (0, 0, D + 1), (W + 1, 0, 0),
                       (half, half, half)]:
                 ops += [('move_to', 'a') + t]
+            # a rejected absolute move whose first axes are fine: nothing may have been written (queries must agree)
+            ops += [('move_to', 'b', 0, H + 5, 0), ('at', 0, 0, 0, 0, 0, 0, 0),
+                    ('at', (W - (0 if fl else 1)) if W else 0, (H - (0 if fl else 1)) if H else 0, (D - (0 if fl else 1)) if D else 0, 0, 0, 0, 0),
+                    ('move_to', 'b', 0, 0, D + 7), ('at', 0, 0, 0, 0, 0, 0, 0)]
             for q in [(0, 0, 0), (W, H, D), (half, 0, 0)]:
                 for lw in [(0, 0, 0, 0), (1, 0, 0, 0), (0, 2, 0, 0), (0, 0, 2, 1), (1, 0, 3, 0), (0, 0, 0, 3), (-1, -1, -1, -1),
                            (0.5, 0, 2, 0)]:
